@@ -50,7 +50,7 @@ theorem reading_not_cleared {s : State} (h : Inv1 s) (hr : s.r ≠ .exited) : s.
     | true =>
       have hcl := h3.2.2.2.2.2.2.2.2
       rw [hc] at hcl
-      have hg : (phaseOf w.pc).gone = true := by
+      have hg : (phaseOf w.graceful w.pc).gone = true := by
         cases hp : w.pc <;> simp [hp, phaseOf] at hcl ⊢
       exact absurd (h3.2.2.2.2.2.1 hg).2 hr
 
@@ -295,6 +295,8 @@ theorem inv5_step {cfg : Cfg} {s s' : State} (a : Action) (h1 : Inv1 s) (h2 : In
       · next h0 => rw [hw] at h6; simp [wcount] at h6; omega
       · injection hs with hs; subst hs; exact inv5_frame h rfl (same_win rfl) rfl rfl id
     · simp at hs
+  case rArm => unfold stepRArm at hs; inv5_other h hs
+  case rChk => unfold stepRChk at hs; inv5_other h hs
   case rFrame => unfold stepRFrame at hs; inv5_other h hs
   case rErr => unfold stepRErr at hs; inv5_other h hs
   case rNil =>
